@@ -1,0 +1,45 @@
+//! Entry points for the verification harness that lives outside this repository.
+//! Compiled only with the `verif` feature; nothing here changes behavior.
+
+use ironplc_dsl::{common::Library, diagnostic::Diagnostic};
+
+/// The transformations of `analyze` (declaration sort and late-bound resolution).
+pub fn resolve_types(sources: &[&Library]) -> Result<Library, Vec<Diagnostic>> {
+    crate::stages::resolve_types(sources)
+}
+
+/// All semantic rules on a resolved library.
+pub fn semantic(library: &Library) -> Result<(), Vec<Diagnostic>> {
+    crate::stages::semantic(library)
+}
+
+/// One semantic rule, by the name of its module.
+pub fn rule(name: &str, library: &Library) -> Option<Result<(), Vec<Diagnostic>>> {
+    let f: fn(&Library) -> Result<(), Vec<Diagnostic>> = match name {
+        "rule_decl_struct_element_unique_names" => crate::rule_decl_struct_element_unique_names::apply,
+        "rule_decl_subrange_limits" => crate::rule_decl_subrange_limits::apply,
+        "rule_enumeration_values_unique" => crate::rule_enumeration_values_unique::apply,
+        "rule_function_block_invocation" => crate::rule_function_block_invocation::apply,
+        "rule_program_task_definition_exists" => crate::rule_program_task_definition_exists::apply,
+        "rule_use_declared_enumerated_value" => crate::rule_use_declared_enumerated_value::apply,
+        "rule_use_declared_symbolic_var" => crate::rule_use_declared_symbolic_var::apply,
+        "rule_unsupported_stdlib_type" => crate::rule_unsupported_stdlib_type::apply,
+        "rule_var_decl_const_initialized" => crate::rule_var_decl_const_initialized::apply,
+        "rule_var_decl_const_not_fb" => crate::rule_var_decl_const_not_fb::apply,
+        "rule_var_decl_global_const_requires_external_const" => crate::rule_var_decl_global_const_requires_external_const::apply,
+        _ => return None,
+    };
+    Some(f(library))
+}
+
+/// One transformation, by the name of its module.
+pub fn xform(name: &str, library: Library) -> Option<Result<Library, Vec<Diagnostic>>> {
+    let f: fn(Library) -> Result<Library, Vec<Diagnostic>> = match name {
+        "xform_toposort_declarations" => crate::xform_toposort_declarations::apply,
+        "xform_resolve_late_bound_data_decl" => crate::xform_resolve_late_bound_data_decl::apply,
+        "xform_resolve_late_bound_expr_kind" => crate::xform_resolve_late_bound_expr_kind::apply,
+        "xform_resolve_late_bound_type_initializer" => crate::xform_resolve_late_bound_type_initializer::apply,
+        _ => return None,
+    };
+    Some(f(library))
+}
